@@ -126,6 +126,32 @@ MatchingImplsOrDefault(sch, p) == MIOD(sch, p, 1)
 (* get_protocols(): a set (the list order is that of a Python set) *)
 Protocols(sch) == {sch.impls[i].protocol : i \in 1..Len(sch.impls)}
 
+(* FcpV2.get(category): the nodes of one category in a fixed order - declaration order, fields struct by struct, signal blocks
+   binding by binding, "type" = structs then enums; an unknown category is Nothing.  Nodes are named by their position:
+   <<"struct", i>>, <<"enum", i>>, <<"impl", i>>, <<"field", s, i>>, <<"signal_block", impl, j>>, <<"service", i>>, <<"device", i>> *)
+RECURSIVE FlatQ(_)
+FlatQ(ss) == IF ss = <<>> THEN <<>> ELSE ss[1] \o FlatQ(Tail(ss))
+Categories == {"struct", "enum", "impl", "field", "signal_block", "type", "service", "device"}
+Idx(tag, seq) == [i \in 1..Len(seq) |-> <<tag, i>>]
+GetCategory(sch, cat) ==
+    CASE cat = "struct"  -> Idx("struct", sch.structs)
+      [] cat = "enum"    -> Idx("enum", sch.enums)
+      [] cat = "impl"    -> Idx("impl", sch.impls)
+      [] cat = "service" -> Idx("service", sch.services)
+      [] cat = "device"  -> Idx("device", sch.devices)
+      [] cat = "type"    -> Idx("struct", sch.structs) \o Idx("enum", sch.enums)
+      [] cat = "field"   -> FlatQ([s \in 1..Len(sch.structs) |-> [i \in 1..Len(sch.structs[s].fields) |-> <<"field", s, i>>]])
+      [] cat = "signal_block" -> FlatQ([m \in 1..Len(sch.impls) |-> [j \in 1..Len(sch.impls[m].signals) |-> <<"signal_block", m, j>>]])
+      [] OTHER -> "nothing"
+(* every node of the tree is in exactly one of the primary categories, exactly once *)
+NodeCount(sch) == Len(sch.structs) + Len(sch.enums) + Len(sch.impls) + Len(sch.services) + Len(sch.devices)
+                  + SeqSum([s \in 1..Len(sch.structs) |-> Len(sch.structs[s].fields)])
+                  + SeqSum([m \in 1..Len(sch.impls) |-> Len(sch.impls[m].signals)])
+CategoriesPartition(sch) ==
+    /\ \A c \in Categories : \A i, j \in 1..Len(GetCategory(sch, c)) : GetCategory(sch, c)[i] = GetCategory(sch, c)[j] => i = j
+    /\ SeqSum([k \in 1..7 |-> Len(GetCategory(sch, <<"struct", "enum", "impl", "field", "signal_block", "service", "device">>[k]))]) = NodeCount(sch)
+    /\ Len(GetCategory(sch, "type")) = Len(sch.structs) + Len(sch.enums)
+
 UniqueStructNames(sch) == \A i, j \in 1..Len(sch.structs) : sch.structs[i].name = sch.structs[j].name => i = j
 (* what a generator relies on: every struct that has a binding for p or a default one is represented; nothing else is returned;
    a struct with an own binding never contributes its default one; with unique struct names no binding is returned twice *)
